@@ -52,9 +52,12 @@ HFinal ==
   /\ LET r == Resp(att)
          \* the adapter's default retry policy (no ReturnLastFailure): exhausted retries end in an ExceededError that carries the LAST attempt's response
          plainRetry == \E j \in 1..Len(hc.policies) : hc.policies[j] = "retryx"
-         exhausted == plainRetry /\ Retryable(r) /\ att = hc.maxRetries + 1 IN
-     /\ Must("retriesAllRetryable", ~Retryable(r) \/ att = hc.maxRetries + 1 \/ att = Len(hc.script))         \* nothing left to retry
-     /\ IF exhausted THEN Must("exceededCarriesLast", "exceeded" \in DOMAIN Line /\ Line.exStatus = (IF r.err = "none" THEN r.status ELSE -1))
+         exhausted == plainRetry /\ Retryable(r) /\ att = hc.maxRetries + 1
+         \* the upload cannot be rewound for the attempt that is due next (environment fault): the request ends with that error
+         rewindFails == hc.seekFailFrom > 0 /\ att = hc.seekFailFrom - 1 /\ Retryable(r) /\ att <= hc.maxRetries IN
+     /\ Must("retriesAllRetryable", rewindFails \/ ~Retryable(r) \/ att = hc.maxRetries + 1 \/ att = Len(hc.script))         \* nothing left to retry
+     /\ IF rewindFails THEN Must("lastError", Line.status = -1)
+        ELSE IF exhausted THEN Must("exceededCarriesLast", "exceeded" \in DOMAIN Line /\ Line.exStatus = (IF r.err = "none" THEN r.status ELSE -1))
         ELSE IF r.err = "none" THEN Must("lastResponse", Line.status = r.status) /\ Must("bodyReadable", Line.bodyReadable /\ Line.bodyEqual)
         ELSE Must("lastError", Line.status = -1)
   /\ fin' = TRUE /\ UNCHANGED <<hc, att, lastEnd>> /\ l' = l + 1
@@ -80,10 +83,17 @@ GFinal ==
   /\ Must("mergerLeak", Line.live = 0)
   /\ fin' = TRUE /\ UNCHANGED <<hc, att, lastEnd>> /\ l' = l + 1
 
+\* C19: round trippers built without an inner transport share the default transport: N sequential executions through N fresh
+\* round trippers (loopback server, bodies read and closed) reuse its idle connection instead of opening one each
+HNilInner ==
+  /\ l <= Len(Trace) /\ Line.ev = "NilInner"
+  /\ Must("nilInnerSharesDefaultTransport", Line.executions >= 1 /\ Line.conns <= 2)
+  /\ UNCHANGED <<hc, att, lastEnd, fin>> /\ l' = l + 1
+
 HDone == l = Len(Trace) + 1 /\ PrintT("TRACE-ACCEPTED") /\ l' = l + 1 /\ UNCHANGED <<hc, att, lastEnd, fin>>
 
-HInit == l = 1 /\ hc = [script |-> <<>>, maxRetries |-> 0, unitsPerSec |-> 1] /\ att = 0 /\ lastEnd = 0 /\ fin = FALSE /\ TLCSet(1, 1)
-HNext == HConfig \/ HReq \/ HFinal \/ HQuiesce \/ GCall \/ GFinal \/ HDone
+HInit == l = 1 /\ hc = [script |-> <<>>, maxRetries |-> 0, unitsPerSec |-> 1, policies |-> <<>>, seekFailFrom |-> 0] /\ att = 0 /\ lastEnd = 0 /\ fin = FALSE /\ TLCSet(1, 1)
+HNext == HConfig \/ HReq \/ HFinal \/ HQuiesce \/ HNilInner \/ GCall \/ GFinal \/ HDone
 HSpec == HInit /\ [][HNext]_hvars
 ProgressPrint == IF TLCGet(1) < l THEN PrintT(<<"HWM", l>>) /\ TLCSet(1, l) ELSE TRUE
 =============================================================================
